@@ -227,6 +227,55 @@ def w_F09a():
     return ok, "bulk IoU of skip edge 1@t0->2@t2 is %r, true overlap 4/8" % (bulk,)
 
 
+def _c07_state(t):
+    """labels and nodes one-to-one?  returns a list of complaints"""
+    seg = np.asarray(t.segmentation)
+    bad = []
+    for n in t.graph.nodes:
+        tt = t.get_time(n)
+        where = [k for k in range(seg.shape[0]) if (seg[k] == n).any()]
+        if where != [tt]:
+            bad.append("node %d (time %d) labels pixels in frames %s" % (n, tt, where))
+    for l in np.unique(seg):
+        if l and int(l) not in t.graph.nodes:
+            bad.append("label %d belongs to no node" % l)
+    return bad
+
+
+def _c07_tracks():
+    seg = np.zeros((3, 5, 5), dtype=np.int64)
+    seg[0, 0:2, 0:2] = 1
+    seg[1, 0:2, 0:2] = 2
+    seg[1, 3:5, 3:5] = 3
+    return _sol({1: 0, 2: 1, 3: 1}, [(1, 2)], seg=seg)
+
+
+def _w_F07b(node, attrs, pixels):
+    from funtracks.user_actions import UserAddNode
+
+    t = _c07_tracks()
+    try:
+        UserAddNode(t, node, attrs, pixels=pixels)
+    except Exception as e:  # noqa: BLE001
+        return not _c07_state(t), "refused (%s); state %s" % (type(e).__name__, _c07_state(t) or "consistent")
+    bad = _c07_state(t)
+    return not bad, "accepted; " + ("; ".join(bad) if bad else "labels and nodes still correspond")
+
+
+def w_F07b_overwrite():
+    # the new node's pixels are ALL the pixels of node 3
+    ys, xs = np.nonzero(np.ones((2, 2), dtype=bool))
+    return _w_F07b(9, {"time": 1, "track_id": 7}, (np.ones(4, dtype=np.int64), ys + 3, xs + 3))
+
+
+def w_F07b_no_pixels():
+    return _w_F07b(9, {"time": 2, "track_id": 7, "pos": [1.0, 1.0]}, None)
+
+
+def w_F07b_wrong_frame():
+    return _w_F07b(9, {"time": 2, "track_id": 7}, (np.array([0]), np.array([4]), np.array([4])))
+
+
 # ----------------------------------------------------------------------------- C11
 def w_F11a():
     from funtracks.user_actions import UserAddNode, UserDeleteEdge
@@ -614,6 +663,9 @@ WITNESSES = {
     "F-05c-first-after-division": (["C05"], w_F05c_first_after_division),
     "F-05c-root-division": (["C05"], w_F05c_root_division),
     "F-07a": (["C07"], w_F07a),
+    "F-07b-overwrite": (["C07"], w_F07b_overwrite),
+    "F-07b-no-pixels": (["C07"], w_F07b_no_pixels),
+    "F-07b-wrong-frame": (["C07"], w_F07b_wrong_frame),
     "F-09a": (["C09"], w_F09a),
     "F-11a": (["C11"], w_F11a),
     "F-11b": (["C11"], w_F11b),
